@@ -1,0 +1,18 @@
+//go:build verif
+// +build verif
+
+// Package failpoint marks the places where the process issues a durable write. With the build tag
+// `verif` a hook installed by the verification harness sees every write before it happens (and may
+// end the process there).
+package failpoint
+
+// Hook is called by Write when set.
+var Hook func(layer, name string, key []byte)
+
+// Write is called immediately before a durable write: layer names the write path ("godb", "ethdb",
+// "autofile", "fileatomic"), name the database or file, key the record.
+func Write(layer, name string, key []byte) {
+	if Hook != nil {
+		Hook(layer, name, key)
+	}
+}
